@@ -72,7 +72,8 @@ def _ln_bounds(c: int):
 
 
 class Lowering:
-    def __init__(self, roots, exp_axioms=True, pair_axioms=True):
+    def __init__(self, roots, exp_axioms=True, pair_axioms=True, level=3):
+        self.level = level
         self.z = {}          # atom id -> z3 const
         self.recip = {}      # atom id -> z3 const for 1/atom
         self.side = []       # z3 constraints that define atoms / instantiate laws
@@ -83,7 +84,7 @@ class Lowering:
         for at in self.atoms:
             self._declare(at)
         if exp_axioms:
-            self._axioms(pair_axioms)
+            self._axioms(pair_axioms and level >= 1)
 
     # ---- declarations
     def _declare(self, at: Atom):
@@ -94,8 +95,8 @@ class Lowering:
         else:
             v = z3.Real(f"{at.kind}!{at.id}")
         self.z[at.id] = v
-        if at.kind == "var" and at.pos:
-            self.side.append(v > 0)     # a variable declared positive is positive in every query
+        if at.kind in ("var", "uf") and at.pos:
+            self.side.append(v > 0)     # a variable / stub result declared positive is positive in every query
         if at.kind == "inv":
             self.side.append(self.p(at.args[0]) * v == 1)
         elif at.kind == "lam":
@@ -122,7 +123,10 @@ class Lowering:
 
         for a in E:
             e, x = self.z[a.id], self.p(a.args[0])
-            self.side += [e > 0, e >= 1 + x, (x > 0) == (e > 1), (x < 0) == (e < 1)]
+            self.side += [e > 0]
+            if self.level < 1:
+                continue
+            self.side += [e >= 1 + x, (x > 0) == (e > 1), (x < 0) == (e < 1)]
             for f, lf in escales(a)[1:]:
                 # the exponential that was asked for is f*e = exp(x + lf)
                 self.side += [(x + lf > 0) == (f * e > 1), (x + lf < 0) == (f * e < 1)]
@@ -130,7 +134,9 @@ class Lowering:
             if a.kind == "lam":
                 continue
             l, x = self.z[a.id], larg(a)
-            self.side += [x > 0, l <= x - 1, x * l >= x - 1, (x > 1) == (l > 0), (x < 1) == (l < 0)]
+            self.side += [x > 0]
+            if self.level >= 1:
+                self.side += [l <= x - 1, x * l >= x - 1, (x > 1) == (l > 0), (x < 1) == (l < 0)]
         if pairs:
             if len(E) <= PAIR_CAP:
                 for a, b in itertools.combinations(E, 2):
@@ -160,16 +166,33 @@ class Lowering:
                         if sa != 1 and a.kind == "L":
                             la, xa, lc = self.z[a.id], larg(a), self.p(T.log_const(sa))
                             self.side += [(_rv(sa) * xa > 1) == (la + lc > 0), (_rv(sa) * xa < 1) == (la + lc < 0)]
-            if len(E) * len(L) <= PAIR_CAP * PAIR_CAP:
+            if self.level >= 2 and len(E) * len(L) <= PAIR_CAP * PAIR_CAP:
                 for a in E:
                     for b in L:
                         e, x, l, y = self.z[a.id], self.p(a.args[0]), self.z[b.id], larg(b)
-                        self.side += [(x < l) == (e < y), (x == l) == (e == y)]
+                        for fa, la_ in escales(a):
+                            X, EE = (x, e) if fa is None else (x + la_, fa * e)
+                            for sb in (sorted({Fraction(1)} | (b.scales or set())) if b.kind == "L" else [Fraction(1)]):
+                                if sb == 1:
+                                    self.side += [(X < l) == (EE < y), (X == l) == (EE == y)]
+                                else:
+                                    lc = self.p(T.log_const(sb))
+                                    self.side += [(X < l + lc) == (EE < _rv(sb) * y), (X == l + lc) == (EE == _rv(sb) * y)]
                         if b.kind == "lam":
                             self.side += [(x < -l) == (e * y < 1), (x == -l) == (e * y == 1)]
+        # exp against quotients of logarithm arguments:  x < ln(yb) - ln(yc)  <=>  e^x * yc < yb
+        Lp = [a for a in L if a.kind == "L"]
+        if pairs and self.level >= 3 and len(E) <= 12 and len(Lp) <= 8:
+            for a in E:
+                e, x = self.z[a.id], self.p(a.args[0])
+                for fa, la_ in escales(a):
+                    X, EE = (x, e) if fa is None else (x + la_, fa * e)
+                    for b, c in itertools.permutations(Lp, 2):
+                        lb, lc, yb, yc = self.z[b.id], self.z[c.id], larg(b), larg(c)
+                        self.side += [(X < lb - lc) == (EE * yc < yb), (X == lb - lc) == (EE * yc == yb)]
         # common differences: when the same difference d = arg_a - arg_b occurs for several pairs, one new
         # atom E(d) is introduced and  E(a) = E(b) * E(d)  is stated for each of them (true of exp)
-        if 2 <= len(E) <= PAIR_CAP:
+        if self.level >= 2 and 2 <= len(E) <= PAIR_CAP:
             groups = {}
             for a, b in itertools.permutations(E, 2):
                 d = T.p_sub(a.args[0], b.args[0])
@@ -337,8 +360,12 @@ def eliminate(conds):
 
 
 def solve(conds, timeout_s=60, exp_axioms=True, pair_axioms=True, want_smt2=False, tactic=None,
-          extra=(), elim=True) -> Result:
-    """Decide the conjunction of BoolT `conds`."""
+          extra=(), elim=True, levels=(1, 2, 3)) -> Result:
+    """Decide the conjunction of BoolT `conds`.
+
+    The instantiated exp/ln facts are added in levels (lazy axiom escalation): every level uses a
+    subset of true facts, so `unsat` at any level is final; `sat` is final only at the last level
+    (or when the query has no exp/ln atoms); a level that answers `unknown` is skipped."""
     conds = [c for c in conds if not (c.kind == "const" and c.args[0])]
     if any(c.kind == "const" and not c.args[0] for c in conds):
         return Result("unsat", 0.0)
@@ -352,27 +379,54 @@ def solve(conds, timeout_s=60, exp_axioms=True, pair_axioms=True, want_smt2=Fals
         conds = [c for c in conds if not (c.kind == "const" and c.args[0])]
         if any(c.kind == "const" and not c.args[0] for c in conds):
             return Result("unsat", time.time() - t0)
-    low = Lowering(list(conds) + [e for _, e in subs], exp_axioms, pair_axioms)
-    zs = [low.b(c) for c in conds]
-    s = z3.Solver() if tactic is None else z3.Then(*tactic).solver() if isinstance(tactic, (list, tuple)) \
-        else z3.Tactic(tactic).solver()
-    s.set("timeout", int(timeout_s * 1000))
-    s.add(*low.side)
-    s.add(*zs)
-    s.add(*extra)
-    smt2 = s.to_smt2() if want_smt2 else None
-    r = s.check()
-    dt = time.time() - t0
-    verdict = str(r)
-    model = {}
-    if verdict == "sat":
-        m = s.model()
-        for at in low.atoms:
-            if at.kind == "var":
-                model[at.args[0]] = _model_value(m, low.z[at.id])
-        for v, e in subs:
-            model[v.args[0]] = _model_value(m, low.p(e))
-    return Result(verdict, dt, model, smt2, {"atoms": len(low.atoms), "side": len(low.side)})
+    roots = list(conds) + [e for _, e in subs]
+    has_el = any(a.kind in ("E", "L") for a in T.collect_atoms(roots))
+    if not has_el or not exp_axioms:
+        levels = (levels[-1],)
+    last = None
+    deadline = t0 + timeout_s
+    for k, lv in enumerate(levels):
+        remaining = deadline - time.time()
+        if remaining <= 0.5:
+            break
+        share = remaining if k == len(levels) - 1 else max(2.0, remaining / (len(levels) - k))
+        low = Lowering(roots, exp_axioms, pair_axioms, level=lv)
+        zs = [low.b(c) for c in conds]
+        s = z3.Solver() if tactic is None else z3.Then(*tactic).solver() if isinstance(tactic, (list, tuple)) \
+            else z3.Tactic(tactic).solver()
+        s.set("timeout", int(share * 1000))
+        s.add(*low.side)
+        s.add(*zs)
+        s.add(*extra)
+        smt2 = s.to_smt2() if want_smt2 else None
+        r = s.check()
+        verdict = str(r)
+        stats = {"atoms": len(low.atoms), "side": len(low.side), "level": lv}
+        if verdict == "unsat":
+            return Result("unsat", time.time() - t0, {}, smt2, stats)
+        if verdict == "sat":
+            model = {}
+            m = s.model()
+            for at in low.atoms:
+                if at.kind == "var":
+                    model[at.args[0]] = _model_value(m, low.z[at.id])
+            for v, e in subs:
+                model[v.args[0]] = _model_value(m, low.p(e))
+            last = Result("sat", time.time() - t0, model, smt2, stats)
+            if lv == levels[-1]:
+                return last
+            continue
+        last_unknown = Result("unknown", time.time() - t0, {}, smt2, stats)
+        if last is None or last.verdict != "sat":
+            last = last_unknown
+        else:
+            last = last_unknown   # a later level could not confirm the earlier sat: inconclusive
+    if last is None:
+        return Result("unknown", time.time() - t0)
+    if last.verdict == "sat" and last.stats.get("level") != levels[-1]:
+        return Result("unknown", time.time() - t0, {}, None, last.stats)
+    last.seconds = time.time() - t0
+    return last
 
 
 def feasibility(timeout_s=5):
@@ -382,7 +436,7 @@ def feasibility(timeout_s=5):
         key = tuple(sorted(c.id for c in conds))
         r = cache.get(key)
         if r is None:
-            r = solve(conds, timeout_s=timeout_s).verdict
+            r = solve(conds, timeout_s=timeout_s, levels=(1,)).verdict
             cache[key] = r
         return r
     return f
